@@ -5,7 +5,7 @@
    what follows it.  No guard on the string (valid UTF-8 or not, astral or
    not). *)
 From Soy Require Import Model.Bytes Model.Utf8 Model.Directives Model.JsEscape Model.JsGen Spec.JsSyntax
-  Proofs.Utf8Proofs Proofs.CodecProofs.
+  Proofs.Utf8Proofs Proofs.CodecProofs Proofs.CodecJsPair.
 From Coq Require Import ZifyBool ZifyNat ZifyN Lia.
 Open Scope N_scope.
 
@@ -44,14 +44,19 @@ Qed.
 Lemma hexdigit_plain n : n < 16 -> hexdigit n <> q /\ hexdigit n <> 92 /\ 32 <= hexdigit n.
 Proof. intro H. unfold hexdigit. destruct (n <? 10) eqn:E; destruct Hq; subst; lia. Qed.
 
-(* the scan of the escaped body ends at the closing quote, whatever follows *)
-Lemma str_scan s : forall k rest,
-  lex_text 0 (LStr q) (js_escape_aux is_print k s ++ q :: rest)
+Lemma str_hex4 x X : lex_text 0 (LStr q) ((92 :: 117 :: hex4 x) ++ X) = lex_text 0 (LStr q) X.
+Proof. unfold hex4. cbn [app]. apply str_u4; apply is_hex_hexdigit; apply N.mod_upper_bound; lia. Qed.
+
+(* the scan of the escaped body ends at the closing quote, whatever follows: for the escaper soy calls
+   (Model/JsEscape.v js_escape_soy), with the surrogate-pair form of internal/jsescape or without it *)
+Variable pair : bool.
+Lemma str_scan_soy s : forall k rest,
+  lex_text 0 (LStr q) (js_escape_soy_aux pair is_print k s ++ q :: rest)
   = option_map (fun '(ts, m) => (TStr :: ts, m)) (lex_text 0 LNormal rest).
 Proof.
   induction s as [|c r IH]; intros k rest.
-  - cbn [js_escape_aux app lex_text]. rewrite N.eqb_refl. reflexivity.
-  - cbn [js_escape_aux]. destruct k as [|k]; [|apply IH].
+  - cbn [js_escape_soy_aux app lex_text]. rewrite N.eqb_refl. reflexivity.
+  - cbn [js_escape_soy_aux]. destruct k as [|k]; [|apply IH].
     destruct (c <? 128) eqn:E128.
     + unfold js_ascii_escape.
       destruct (c =? 92) eqn:E1; [cbn [app]; rewrite str_esc1 by auto; apply IH|].
@@ -66,11 +71,12 @@ Proof.
         -- apply N.div_lt_upper_bound; lia.
         -- apply N.mod_upper_bound. lia.
       * cbn [app]. rewrite str_plain; [apply IH| | |]; destruct Hq; subst; lia.
-    + rewrite <- app_assoc. unfold js_rune_piece. destruct (decode_rune (c :: r)) as [ru w] eqn:Hd.
-      destruct (is_print ru).
+    + rewrite <- app_assoc. unfold js_rune_piece_soy. destruct (decode_rune (c :: r)) as [ru w] eqn:Hd.
+      destruct (is_print ru); [|destruct (pair && (65536 <=? ru))].
       * rewrite str_plains; [apply IH|].
         eapply Forall_impl; [|eapply decode_rune_take_high; [exact Hd|exists c, r; split; [reflexivity|lia]]].
         cbn. intros a Ha. destruct Hq; subst; lia.
+      * rewrite <- app_assoc. rewrite !str_hex4. apply IH.
       * unfold fmt_04X, hex4.
         assert (Hm : forall x, is_hex (hexdigit (x mod 16)) = true) by (intro x; apply is_hex_hexdigit; apply N.mod_upper_bound; lia).
         assert (Hp : forall x, hexdigit (x mod 16) <> q /\ hexdigit (x mod 16) <> 92 /\ 32 <= hexdigit (x mod 16)) by (intro x; apply hexdigit_plain; apply N.mod_upper_bound; lia).
@@ -81,6 +87,18 @@ Proof.
            rewrite str_plain by assumption. rewrite str_plain by assumption. apply IH.
 Qed.
 
+End Str.
+
+Section StrLib.
+Variable is_print : N -> bool.
+Variable q : N.
+Hypothesis Hq : q = 39 \/ q = 34.
+(* text/template's escaper is the case pair = false *)
+Lemma str_scan s k rest :
+  lex_text 0 (LStr q) (js_escape_aux is_print k s ++ q :: rest)
+  = option_map (fun '(ts, m) => (TStr :: ts, m)) (lex_text 0 LNormal rest).
+Proof. rewrite <- js_escape_soy_false_aux. apply (str_scan_soy is_print q Hq). Qed.
+
 (* a rendered string literal chunk, followed by anything: one string token, then the rest in normal mode *)
 Theorem strlit_one_token s rest :
   lex_text 0 LNormal (render_chunk is_print (CStrLit q s) ++ rest)
@@ -89,6 +107,6 @@ Proof.
   cbn [render_chunk app]. rewrite <- app_assoc. cbn [app lex_text].
   replace (is_space q) with false by (destruct Hq; subst; reflexivity).
   replace ((q =? 39) || (q =? 34)) with true by (destruct Hq; subst; reflexivity).
-  apply str_scan.
+  first [apply (str_scan_soy is_print q Hq) | apply str_scan].
 Qed.
-End Str.
+End StrLib.
